@@ -61,9 +61,10 @@ class SimStream:
         else:
             self.largest_request = max(self.largest_request, want)
             n = min(want, avail)
-        if self.max_read and n > self.max_read:
+        unbounded = want is None or want < 0  # read() / read(-1) means "until EOF"
+        if self.max_read and n > self.max_read and not unbounded:
             n = self.max_read
-        if n > 1:
+        if n > 1 and not unbounded:
             k = self.tape.draw(n)
             if k:
                 n = k
